@@ -5,11 +5,11 @@ CONSTANTS
   None = none
   RunP = run
   MaxSeq = 2
-  Steps = {0, 1}
-  Wants = {1, 3}
+  Steps = {1}
+  Wants = {2, 3}
   Timeouts = {1}
   UpdCap = 10
-  MaxTime = 2
+  MaxTime = 1
   Strategy = "first-working"
   Rtt0 <- Rtt_1
   MaxFlips = 0
